@@ -162,6 +162,7 @@ class Engine:
             r = 0
             for i, p in enumerate(parts): r |= p << (8 * i)
             return r
+        if len(parts) == 1: return parts[0]
         return z3.simplify(z3.Concat(*[bv(p, 8) for p in reversed(parts)]))
 
     def store_typed(s, addr, t, v):
@@ -774,7 +775,7 @@ class Engine:
         raise NotImplementedError(name)
 
     def cstring(s, a, limit=1 << 20):
-        out = []
+        out = []; a = s.concretize(a, 64)
         while len(out) < limit:
             b = s.load(a + len(out), 1)
             if is_sym(b):
